@@ -204,6 +204,16 @@ def eval_root(case):
             L = ans[1]
             if any(not (a < b) for a, b in zip(L, L[1:])):
                 out.append({'kind': 'not-strictly-increasing', 'op': op, 'got': L})
+        if not cache and op[0] in ('rrule', 'exrule', 'rdate', 'exdate'):
+            # an uncached set has no memo: listing it after every mutation is free of side effects, so every
+            # member combination reached at the depth bound is listed as well (one more level of observation)
+            try:
+                full = with_alarm(20.0, list, st.set)
+            except Exception as e:
+                full = 'EXC:' + type(e).__name__
+            if full != E:
+                out.append({'kind': 'set-disagrees', 'op': ('list-after',) + tuple(op), 'got': full if isinstance(full, str) else full[:6],
+                            'expected': E[:6], 'members': {k: list(v) for k, v in st.members.items()}, 'cache': cache})
         c = getattr(st.set, '_cache', None)
         if cache and c is not None and list(c) != E[:len(c)]:
             out.append({'kind': 'stale-cache', 'op': op, 'cache_len': len(c),
